@@ -645,10 +645,6 @@ func (s *BaseNodeService) reinitDKG(message storage.Message) error {
 	if err != nil {
 		return fmt.Errorf("failed to calculat reinitDKG message hash: %w", err)
 	}
-	if err := s.opService.PutOperation(operation); err != nil {
-		return fmt.Errorf("failed to PutOperation: %w", err)
-	}
-
 	// save new comm keys into FSM to verify future messages
 	fsmInstance, err := s.fsmService.GetFSMInstance(req.DKGID, true)
 	if err != nil {
@@ -664,6 +660,14 @@ func (s *BaseNodeService) reinitDKG(message storage.Message) error {
 
 	if err := s.fsmService.SaveFSM(message.DkgRoundID, fsmDump); err != nil {
 		return fmt.Errorf("failed to SaveFSM: %w", err)
+	}
+
+	// The operation is offered only now that the round with the new keys is
+	// saved: its answer (finishing the reinitialisation through the API) updates
+	// that round, and an answer given while the round was still being written
+	// here would be overwritten, or would overwrite the new keys.
+	if err := s.opService.PutOperation(operation); err != nil {
+		return fmt.Errorf("failed to PutOperation: %w", err)
 	}
 
 	return nil
